@@ -402,21 +402,13 @@ impl SuffixArrayBuilder {
     }
 
     /// SA-IS (Suffix Array by Induced Sorting) algorithm implementation
+    ///
+    /// Nong-Zhang-Chan induced sorting with a virtual sentinel: the text is treated
+    /// as if it were followed by a symbol smaller than every byte, so no byte value
+    /// is reserved and the input does not have to be terminated.
     fn sais_construct(&self, text: &[u8]) -> Result<Vec<usize>> {
-        // Add recursion depth limit to prevent stack overflow
-        self.sais_construct_with_depth(text, 0)
-    }
-    
-    fn sais_construct_with_depth(&self, text: &[u8], depth: usize) -> Result<Vec<usize>> {
-        // Prevent stack overflow with recursion depth limit
-        const MAX_RECURSION_DEPTH: usize = 100;
-        if depth > MAX_RECURSION_DEPTH {
-            // Fall back to simple sorting for deep recursion
-            return self.fallback_sort(text);
-        }
-        
         let n = text.len();
-        
+
         // Guard against excessive memory allocation
         const MAX_TEXT_SIZE: usize = 1 << 30; // 1GB limit
         if n > MAX_TEXT_SIZE {
@@ -424,7 +416,7 @@ impl SuffixArrayBuilder {
                 "Text too large for suffix array construction"
             ));
         }
-        
+
         // Find alphabet size
         let alphabet_size = if self.config.optimize_small_alphabet {
             256 // Full byte alphabet
@@ -432,389 +424,207 @@ impl SuffixArrayBuilder {
             *text.iter().max().unwrap_or(&0) as usize + 1
         };
 
-        // Step 1: Classify suffixes as L-type or S-type
-        let (suffix_types, is_lms) = self.classify_suffixes(text)?;
-
-        // Step 2: Find LMS suffixes
-        let lms_suffixes = self.find_lms_suffixes(&is_lms);
-
-        if lms_suffixes.is_empty() {
-            // All suffixes are L-type (monotonically decreasing string)
-            return Ok((0..n).rev().collect());
-        }
-
-        // Step 3: Sort LMS suffixes
-        let mut sa = vec![0; n];
-        let mut bucket = vec![0; alphabet_size];
-        let mut bucket_heads = vec![0; alphabet_size];
-        let mut bucket_tails = vec![0; alphabet_size];
-
-        // Count character frequencies
-        for &ch in text {
-            bucket[ch as usize] += 1;
-        }
-
-        // Compute bucket boundaries
-        self.compute_bucket_boundaries(&bucket, &mut bucket_heads, &mut bucket_tails);
-
-        // Initialize SA with sentinel values
-        for i in 0..n {
-            sa[i] = n; // Use n as sentinel (invalid index)
-        }
-
-        // Place LMS suffixes at the end of their buckets with bounds checking
-        for &lms_idx in lms_suffixes.iter().rev() {
-            if lms_idx >= text.len() {
-                continue; // Skip invalid indices
-            }
-            let ch = text[lms_idx] as usize;
-            if ch < bucket_tails.len() && bucket_tails[ch] > 0 {
-                bucket_tails[ch] -= 1;
-                if bucket_tails[ch] < sa.len() {
-                    sa[bucket_tails[ch]] = lms_idx;
-                }
-            }
-        }
-
-        // Induce L-type suffixes
-        self.induce_l_type(&mut sa, text, &suffix_types, &bucket_heads)?;
-
-        // Induce S-type suffixes
-        self.induce_s_type(&mut sa, text, &suffix_types, &bucket_tails)?;
-
-        // Step 4: Compact LMS suffixes and check if they're unique
-        let lms_sa = self.compact_lms_suffixes(&sa, &is_lms);
-        let lms_names = self.name_lms_substrings(text, &lms_sa, &lms_suffixes)?;
-
-        // Check if all LMS substrings are unique
-        let max_name = lms_names.iter().max().copied().unwrap_or(0);
-        
-        if (max_name as usize) < lms_suffixes.len() {
-            // Not all LMS substrings are unique, recursively sort them with depth tracking
-            let reduced_sa = self.sais_construct_with_depth(&lms_names, depth + 1)?;
-            
-            // Map back to original indices
-            let mut sorted_lms = Vec::new();
-            for &rank in &reduced_sa {
-                sorted_lms.push(lms_suffixes[rank]);
-            }
-
-            // Rebuild SA with sorted LMS suffixes
-            self.rebuild_sa_with_sorted_lms(text, &sorted_lms, &suffix_types, alphabet_size)
-        } else {
-            // All LMS substrings are unique, SA is complete
-            // Handle any remaining sentinel values by finding missing indices
-            if sa.iter().any(|&x| x >= n) {
-                // Find which indices are missing from the suffix array
-                let mut present = vec![false; n];
-                for &val in sa.iter() {
-                    if val < n {
-                        present[val] = true;
-                    }
-                }
-                
-                let missing_indices: Vec<usize> = (0..n).filter(|&i| !present[i]).collect();
-                let mut missing_iter = missing_indices.into_iter();
-                
-                // Replace sentinel values with missing indices
-                for sa_val in sa.iter_mut() {
-                    if *sa_val >= n {
-                        if let Some(missing_idx) = missing_iter.next() {
-                            *sa_val = missing_idx;
-                        }
-                    }
-                }
-            }
-            
-            Ok(sa)
-        }
+        Ok(Self::sais_sort(text, alphabet_size))
     }
 
-    /// Classify each suffix as L-type or S-type
-    fn classify_suffixes(&self, text: &[u8]) -> Result<(Vec<bool>, Vec<bool>)> {
-        let n = text.len();
-        let mut suffix_types = vec![false; n]; // false = L-type, true = S-type
-        let mut is_lms = vec![false; n];
+    /// Sort the suffixes of `text`, whose symbols are all below `alphabet_size`.
+    ///
+    /// The recursion works on the string of LMS-substring names, which is at most
+    /// half as long as `text`, so the depth is logarithmic in the text length.
+    fn sais_sort<T: Copy + Ord + Into<usize>>(text: &[T], alphabet_size: usize) -> Vec<usize> {
+        const EMPTY: usize = usize::MAX;
 
+        let n = text.len();
         if n == 0 {
-            return Ok((suffix_types, is_lms));
+            return Vec::new();
+        }
+        if n == 1 {
+            return vec![0];
         }
 
-        // Last suffix is S-type by definition
-        suffix_types[n - 1] = true;
-
-        // Classify suffixes from right to left
+        // Step 1: Classify suffixes as L-type (false) or S-type (true). The virtual
+        // sentinel at position n is S-type, hence the last real suffix is L-type.
+        let mut is_s = vec![false; n];
         for i in (0..n - 1).rev() {
-            if text[i] < text[i + 1] {
-                suffix_types[i] = true; // S-type
-            } else if text[i] > text[i + 1] {
-                suffix_types[i] = false; // L-type
-            } else {
-                // Same character, inherit from next position
-                suffix_types[i] = suffix_types[i + 1];
+            is_s[i] = text[i] < text[i + 1] || (text[i] == text[i + 1] && is_s[i + 1]);
+        }
+        // LMS (Left-Most S-type) positions; the sentinel is one too, kept implicit
+        let is_lms = |i: usize| i > 0 && is_s[i] && !is_s[i - 1];
+
+        // Character frequencies
+        let mut bucket = vec![0usize; alphabet_size];
+        for &ch in text {
+            bucket[ch.into()] += 1;
+        }
+
+        // Step 2: Sort the LMS substrings by inducing from unsorted LMS suffixes
+        let mut sa = vec![EMPTY; n];
+        let mut tails = Self::bucket_tails(&bucket);
+        for i in (1..n).rev() {
+            if is_lms(i) {
+                let ch: usize = text[i].into();
+                tails[ch] -= 1;
+                sa[tails[ch]] = i;
+            }
+        }
+        Self::induce_l_type(&mut sa, text, &is_s, &bucket);
+        Self::induce_s_type(&mut sa, text, &is_s, &bucket);
+
+        // Step 3: Name the LMS substrings in their sorted order
+        let lms_count = (1..n).filter(|&i| is_lms(i)).count();
+        let mut sorted_lms: Vec<usize> = Vec::with_capacity(lms_count);
+        sorted_lms.extend(sa.iter().copied().filter(|&pos| pos != EMPTY && is_lms(pos)));
+        debug_assert_eq!(sorted_lms.len(), lms_count);
+
+        // names[p / 2] is the name of the LMS substring at p (no two LMS positions are adjacent)
+        let mut names = vec![EMPTY; n / 2 + 1];
+        let mut name_count = 0usize;
+        let mut prev = EMPTY;
+        for &pos in &sorted_lms {
+            if prev == EMPTY || !Self::lms_substrings_equal(text, &is_s, prev, pos) {
+                name_count += 1;
+            }
+            names[pos / 2] = name_count - 1;
+            prev = pos;
+        }
+
+        // Step 4: Sort the LMS suffixes, recursively unless all names are unique
+        if name_count < lms_count {
+            let lms_positions: Vec<usize> = (1..n).filter(|&i| is_lms(i)).collect();
+            let reduced: Vec<usize> = lms_positions.iter().map(|&pos| names[pos / 2]).collect();
+            drop(names);
+            let reduced_sa = Self::sais_sort(&reduced, name_count);
+            for (slot, &rank) in sorted_lms.iter_mut().zip(reduced_sa.iter()) {
+                *slot = lms_positions[rank];
             }
         }
 
-        // Find LMS positions (Left-Most S-type)
-        for i in 1..n {
-            if suffix_types[i] && !suffix_types[i - 1] {
-                is_lms[i] = true;
-            }
+        // Step 5: Induce the final order from the sorted LMS suffixes
+        for slot in sa.iter_mut() {
+            *slot = EMPTY;
         }
+        let mut tails = Self::bucket_tails(&bucket);
+        for &pos in sorted_lms.iter().rev() {
+            let ch: usize = text[pos].into();
+            tails[ch] -= 1;
+            sa[tails[ch]] = pos;
+        }
+        Self::induce_l_type(&mut sa, text, &is_s, &bucket);
+        Self::induce_s_type(&mut sa, text, &is_s, &bucket);
 
-        Ok((suffix_types, is_lms))
+        debug_assert!(sa.iter().all(|&pos| pos < n));
+        sa
     }
 
-    /// Find all LMS suffix positions
-    fn find_lms_suffixes(&self, is_lms: &[bool]) -> Vec<usize> {
-        is_lms.iter()
-            .enumerate()
-            .filter_map(|(i, &is_lms_pos)| if is_lms_pos { Some(i) } else { None })
-            .collect()
-    }
-
-    /// Compute bucket head and tail positions
-    fn compute_bucket_boundaries(
-        &self,
-        bucket: &[usize],
-        bucket_heads: &mut [usize],
-        bucket_tails: &mut [usize],
-    ) {
+    /// Start position of every character bucket
+    fn bucket_heads(bucket: &[usize]) -> Vec<usize> {
         let mut sum = 0;
-        for i in 0..bucket.len() {
-            bucket_heads[i] = sum;
-            sum += bucket[i];
-            bucket_tails[i] = sum;
-        }
-    }
-
-    /// Induce L-type suffixes from left to right
-    fn induce_l_type(
-        &self,
-        sa: &mut [usize],
-        text: &[u8],
-        suffix_types: &[bool],
-        bucket_heads: &[usize],
-    ) -> Result<()> {
-        let n = text.len();
-        let mut heads = bucket_heads.to_vec();
-
-        for i in 0..n {
-            if sa[i] == n {
-                continue; // Skip sentinel values
-            }
-
-            let j = sa[i];
-            if j > 0 && j <= text.len() && !suffix_types[j - 1] {
-                // Predecessor is L-type
-                if j - 1 < text.len() {
-                    let ch = text[j - 1] as usize;
-                    if ch < heads.len() && heads[ch] < n && heads[ch] < sa.len() {
-                        sa[heads[ch]] = j - 1;
-                        heads[ch] += 1;
-                    }
-                }
-            }
-        }
-
-        Ok(())
-    }
-
-    /// Induce S-type suffixes from right to left
-    fn induce_s_type(
-        &self,
-        sa: &mut [usize],
-        text: &[u8],
-        suffix_types: &[bool],
-        bucket_tails: &[usize],
-    ) -> Result<()> {
-        let n = text.len();
-        let mut tails = bucket_tails.to_vec();
-
-        for i in (0..n).rev() {
-            if sa[i] == n {
-                continue; // Skip sentinel values
-            }
-
-            let j = sa[i];
-            if j > 0 && j <= text.len() && suffix_types[j - 1] {
-                // Predecessor is S-type
-                if j - 1 < text.len() {
-                    let ch = text[j - 1] as usize;
-                    if ch < tails.len() && tails[ch] > 0 && tails[ch] <= sa.len() {
-                        tails[ch] -= 1;
-                        if tails[ch] < sa.len() {
-                            sa[tails[ch]] = j - 1;
-                        }
-                    }
-                }
-            }
-        }
-
-        Ok(())
-    }
-
-    /// Compact LMS suffixes from the suffix array
-    fn compact_lms_suffixes(&self, sa: &[usize], is_lms: &[bool]) -> Vec<usize> {
-        sa.iter()
-            .filter_map(|&pos| {
-                if pos < is_lms.len() && is_lms[pos] {
-                    Some(pos)
-                } else {
-                    None
-                }
+        bucket
+            .iter()
+            .map(|&count| {
+                let head = sum;
+                sum += count;
+                head
             })
             .collect()
     }
 
-    /// Assign names to LMS substrings based on their lexicographic order
-    fn name_lms_substrings(
-        &self,
-        text: &[u8],
-        lms_sa: &[usize],
-        lms_suffixes: &[usize],
-    ) -> Result<Vec<u8>> {
-        let mut names = vec![0u8; lms_suffixes.len()];
-        let mut current_name = 0u8;
-
-        if !lms_sa.is_empty() {
-            names[0] = current_name;
-
-            for i in 1..lms_sa.len() {
-                if !self.are_lms_substrings_equal(text, lms_sa[i - 1], lms_sa[i], lms_suffixes)? {
-                    current_name = current_name.wrapping_add(1);
-                }
-                
-                // Find position of lms_sa[i] in lms_suffixes with bounds checking
-                if lms_sa[i] < text.len() {
-                    let pos = lms_suffixes.iter().position(|&x| x == lms_sa[i])
-                        .ok_or_else(|| crate::error::ZiporaError::invalid_data("LMS suffix not found"))?;
-                    if pos < names.len() {
-                        names[pos] = current_name;
-                    }
-                } else {
-                    return Err(crate::error::ZiporaError::invalid_data("Invalid LMS suffix index"));
-                }
-            }
-        }
-
-        Ok(names)
+    /// End position (exclusive) of every character bucket
+    fn bucket_tails(bucket: &[usize]) -> Vec<usize> {
+        let mut sum = 0;
+        bucket
+            .iter()
+            .map(|&count| {
+                sum += count;
+                sum
+            })
+            .collect()
     }
 
-    /// Check if two LMS substrings are equal
-    fn are_lms_substrings_equal(
-        &self,
-        text: &[u8],
+    /// Induce L-type suffixes from left to right
+    fn induce_l_type<T: Copy + Into<usize>>(
+        sa: &mut [usize],
+        text: &[T],
+        is_s: &[bool],
+        bucket: &[usize],
+    ) {
+        let n = text.len();
+        let mut heads = Self::bucket_heads(bucket);
+
+        // The virtual sentinel is the smallest suffix; its predecessor is L-type
+        let ch: usize = text[n - 1].into();
+        sa[heads[ch]] = n - 1;
+        heads[ch] += 1;
+
+        for i in 0..n {
+            let j = sa[i];
+            if j == usize::MAX || j == 0 {
+                continue; // Empty slot, or no predecessor
+            }
+            if !is_s[j - 1] {
+                let ch: usize = text[j - 1].into();
+                sa[heads[ch]] = j - 1;
+                heads[ch] += 1;
+            }
+        }
+    }
+
+    /// Induce S-type suffixes from right to left
+    fn induce_s_type<T: Copy + Into<usize>>(
+        sa: &mut [usize],
+        text: &[T],
+        is_s: &[bool],
+        bucket: &[usize],
+    ) {
+        let n = text.len();
+        let mut tails = Self::bucket_tails(bucket);
+
+        for i in (0..n).rev() {
+            let j = sa[i];
+            if j == usize::MAX || j == 0 {
+                continue; // Empty slot, or no predecessor
+            }
+            if is_s[j - 1] {
+                let ch: usize = text[j - 1].into();
+                tails[ch] -= 1;
+                sa[tails[ch]] = j - 1;
+            }
+        }
+    }
+
+    /// Check if the LMS substrings starting at the LMS positions `pos1` and `pos2`
+    /// are equal (same length, characters and suffix types). An LMS substring runs
+    /// up to and including the next LMS position, which may be the virtual sentinel.
+    fn lms_substrings_equal<T: Copy + Ord>(
+        text: &[T],
+        is_s: &[bool],
         pos1: usize,
         pos2: usize,
-        lms_suffixes: &[usize],
-    ) -> Result<bool> {
-        if pos1 >= text.len() || pos2 >= text.len() {
-            return Ok(false);
-        }
-        
-        // Additional safety check for bounds
-        if pos1 == pos2 {
-            return Ok(true);
-        }
-
-        // Find the end of each LMS substring
-        let end1 = self.find_lms_substring_end(pos1, lms_suffixes, text.len());
-        let end2 = self.find_lms_substring_end(pos2, lms_suffixes, text.len());
-
-        let len1 = end1 - pos1;
-        let len2 = end2 - pos2;
-
-        if len1 != len2 {
-            return Ok(false);
-        }
-
-        // Compare character by character with bounds checking
-        for i in 0..len1 {
-            if pos1 + i >= text.len() || pos2 + i >= text.len() {
-                return Ok(false);
-            }
-            if text[pos1 + i] != text[pos2 + i] {
-                return Ok(false);
-            }
-        }
-
-        Ok(true)
-    }
-
-    /// Find the end position of an LMS substring
-    fn find_lms_substring_end(&self, start: usize, lms_suffixes: &[usize], text_len: usize) -> usize {
-        // Find next LMS position after start
-        lms_suffixes.iter()
-            .find(|&&pos| pos > start)
-            .copied()
-            .unwrap_or(text_len)
-    }
-
-    /// Rebuild the suffix array with sorted LMS suffixes
-    fn rebuild_sa_with_sorted_lms(
-        &self,
-        text: &[u8],
-        sorted_lms: &[usize],
-        suffix_types: &[bool],
-        alphabet_size: usize,
-    ) -> Result<Vec<usize>> {
+    ) -> bool {
         let n = text.len();
-        let mut sa = vec![n; n]; // Initialize with sentinel values
-        let mut bucket = vec![0; alphabet_size];
-        let mut bucket_heads = vec![0; alphabet_size];
-        let mut bucket_tails = vec![0; alphabet_size];
-
-        // Count character frequencies
-        for &ch in text {
-            bucket[ch as usize] += 1;
+        if pos1 == pos2 {
+            return true;
         }
 
-        // Compute bucket boundaries
-        self.compute_bucket_boundaries(&bucket, &mut bucket_heads, &mut bucket_tails);
-
-        // Place sorted LMS suffixes with bounds checking
-        for &lms_pos in sorted_lms.iter().rev() {
-            if lms_pos >= text.len() {
-                continue;
+        let mut d = 0;
+        loop {
+            let (a, b) = (pos1 + d, pos2 + d);
+            if a == n || b == n {
+                // One substring ends with the sentinel, which occurs only once
+                return false;
             }
-            let ch = text[lms_pos] as usize;
-            if ch < bucket_tails.len() && bucket_tails[ch] > 0 {
-                bucket_tails[ch] -= 1;
-                if bucket_tails[ch] < sa.len() {
-                    sa[bucket_tails[ch]] = lms_pos;
+            if text[a] != text[b] || is_s[a] != is_s[b] {
+                return false;
+            }
+            if d > 0 {
+                let a_lms = is_s[a] && !is_s[a - 1];
+                let b_lms = is_s[b] && !is_s[b - 1];
+                if a_lms || b_lms {
+                    return a_lms && b_lms;
                 }
             }
+            d += 1;
         }
-
-        // Induce L-type and S-type suffixes
-        self.induce_l_type(&mut sa, text, suffix_types, &bucket_heads)?;
-        self.induce_s_type(&mut sa, text, suffix_types, &bucket_tails)?;
-
-        // Handle any remaining sentinel values by finding missing indices
-        if sa.iter().any(|&x| x >= n) {
-            // Find which indices are missing from the suffix array
-            let mut present = vec![false; n];
-            for &val in sa.iter() {
-                if val < n {
-                    present[val] = true;
-                }
-            }
-            
-            let missing_indices: Vec<usize> = (0..n).filter(|&i| !present[i]).collect();
-            let mut missing_iter = missing_indices.into_iter();
-            
-            // Replace sentinel values with missing indices
-            for sa_val in sa.iter_mut() {
-                if *sa_val >= n {
-                    if let Some(missing_idx) = missing_iter.next() {
-                        *sa_val = missing_idx;
-                    }
-                }
-            }
-        }
-        
-        Ok(sa)
     }
 
     /// DC3 (Divide-and-Conquer-3) algorithm implementation
@@ -897,23 +707,6 @@ impl SuffixArrayBuilder {
     fn build_parallel(&self, text: &[u8]) -> Result<Vec<usize>> {
         // For now, fall back to sequential - full parallel SA-IS is very complex
         self.build_sequential(text)
-    }
-    
-    /// Fallback sorting algorithm for when recursion depth is exceeded
-    fn fallback_sort(&self, text: &[u8]) -> Result<Vec<usize>> {
-        if text.is_empty() {
-            return Ok(Vec::new());
-        }
-        
-        // Use simple sorting for small texts or deep recursion
-        let mut sa: Vec<usize> = (0..text.len()).collect();
-        sa.sort_by(|&a, &b| {
-            let suffix_a = &text[a..];
-            let suffix_b = &text[b..];
-            suffix_a.cmp(suffix_b)
-        });
-        
-        Ok(sa)
     }
 }
 
